@@ -323,9 +323,14 @@ impl PartialOrd for R64 {
     fn partial_cmp(&self, other: &R64) -> (r: Option<core::cmp::Ordering>) { unimplemented!() }
 }
 
-/// `x as f64` for the integer types used (R6)
+/// `x as f64` for the integer types used (R6: exact, no rounding)
+pub trait VxAsF64 { spec fn as_real(&self) -> real; }
+impl VxAsF64 for i64 { open spec fn as_real(&self) -> real { *self as real } }
+impl VxAsF64 for usize { open spec fn as_real(&self) -> real { *self as real } }
+impl VxAsF64 for i32 { open spec fn as_real(&self) -> real { *self as real } }
+impl VxAsF64 for u32 { open spec fn as_real(&self) -> real { *self as real } }
 #[verifier::external_body]
-pub fn vx_as_f64_usize(x: usize) -> (r: R64) ensures r@ == x as real { unimplemented!() }
+pub fn vx_as_f64<T: VxAsF64>(x: T) -> (r: R64) ensures r@ == x.as_real() { unimplemented!() }
 
 pub broadcast group group_r64 {
     axiom_r64_of,
